@@ -185,6 +185,9 @@ Reply(p, kind, c) ==
   /\ (kind \in {"cur", "nobit"} => tag[c] # 0 /\ tag[c] \in known)
   /\ (kind = "old" => old[c] # 0 /\ old[c] # tag[c] /\ old[c] \in known)
   /\ (kind = "unknown" => c = 0)
+  \* "unsent": the (predictable) id of a request of c that was allocated but never written: cancelled or superseded while
+  \* it waited for a pipe
+  /\ (kind = "unsent" => old[c] # 0 /\ old[c] # tag[c] /\ old[c] \notin known /\ known # {})
   /\ LET m == nextMsg
          accept == kind = "cur" /\ tag[c] # 0 /\ sendOp[c] = 0 /\ rep[c] = 0
          A == IF ~accept THEN S0
@@ -194,7 +197,7 @@ Reply(p, kind, c) ==
                         THEN Fin([B EXCEPT !.recvOp = [@ EXCEPT ![c] = 0], !.delivered = Append(@, [ctx |-> c, rep |-> m])], recvOp[c], "ok", m)
                         ELSE [B EXCEPT !.rep = [@ EXCEPT ![c] = m], !.readable = IF c = 0 THEN TRUE ELSE @]
          act == [a |-> "inject", p |-> p, m |-> m, rkind |-> kind,
-                 rtag |-> IF kind \in {"cur", "nobit"} THEN tag[c] ELSE IF kind = "old" THEN old[c] ELSE 0,
+                 rtag |-> IF kind \in {"cur", "nobit"} THEN tag[c] ELSE IF kind \in {"old", "unsent"} THEN old[c] ELSE 0,
                  short |-> (kind = "short"), out |-> [rv |-> "delivered"]]
      IN Apply(A, act)
   /\ nextMsg' = nextMsg + 1
@@ -241,7 +244,7 @@ Next == \/ (\E c \in Ctxs, md \in {"nb", "aio"} : Send(c, md) \/ Recv(c, md))
         \/ (\E k \in 1..MaxOps : Cancel(k)) \/ CtxOpen
         \/ (\E c \in Ctxs, v \in {Resend, Inf} : SetResend(c, v))
         \/ (\E p \in Pipes : Connect(p) \/ Take(p) \/ Lost(p, "close") \/ Lost(p, "short")
-                             \/ \E c \in Ctxs, kd \in {"cur", "old", "unknown", "nobit"} : Reply(p, kd, c))
+                             \/ \E c \in Ctxs, kd \in {"cur", "old", "unknown", "nobit", "unsent"} : Reply(p, kd, c))
         \/ (\E d \in Ticks : Advance(d))
 Spec == Init /\ [][Next]_vars
 
